@@ -50,7 +50,7 @@ FINDING_CLASSES = {1: "nested-target-order", 2: "source-under-group", 3: "nested
 # implementation set "judge_fixed_order" (fixes/C16-nested-target-order.patch only), "judge_fixed_source"
 # (fixes/C16-source-under-group.patch only) or "judge_fixed" (both) — coq/Corr/C16Judge.v, notes/C16.md. The environment
 # variable is for trying a repaired worktree without editing this file.
-JUDGE = os.environ.get("C16_JUDGE", "judge")
+JUDGE = os.environ.get("C16_JUDGE", "judge_fixed")   # both repairs landed: /repo f5bd9a3, 7dc0000
 LABELS = "abcdefg"
 
 
